@@ -29,7 +29,14 @@ func TestProp(t *testing.T) {
 	env := NewEnv(prop.ID, *flagOut, *flagShard, *flagTier)
 	defer env.Write()
 	rapid.Check(t, func(rt *rapid.T) {
-		RunCase(rt, env, prop)
+		switch prop.ID {
+		case "C11":
+			RunFaultCase(rt, env, prop, C11Faults, nil)
+		case "C20":
+			RunFaultCase(rt, env, prop, C20Faults, c20Post())
+		default:
+			RunCase(rt, env, prop)
+		}
 	})
 }
 
